@@ -517,6 +517,8 @@ def run(run):
     except (AnalysisBroken, O_.AnalysisBroken) as ex:
         run.broken('PRECEDENCE', inst_, str(ex), ar_.where())
     firstpassing(run, fx)
+    from . import posexec
+    posexec.finalise_exec(run, fx, rules=('SHIFTFREE',), deep=getattr(run, 'tier', 'quick') != 'quick', ids={'SHIFTFREE': 'ATTRSEM'})   # what attr_set shift / advance mean for positions
     pureconstraint(run, vm)
     passorder(run, fx)
     passbitsfresh(run, fx)
